@@ -167,7 +167,7 @@ def entropies(draw, n=None):
     ones = (1 << nbits) - 1
     kind = draw(
         st.sampled_from(
-            ["random", "random", "random", "zeros", "ones", "bit-set", "bit-clear", "rep-byte", "lead-zeros",
+            ["random", "random", "random", "random", "random", "random", "zeros", "ones", "bit-set", "bit-clear", "rep-byte", "lead-zeros",
              "trail-zeros", "extreme-word", "sparse"]
         )
     )
@@ -737,7 +737,7 @@ def targets(tier):
             "last-word",
             check_last_word,
             strategy=lambda tier: last_word_cases(),
-            budget={"quick": 48, "thorough": 1600},
+            budget={"quick": 48, "thorough": 800},
             required=["nt:last-word-exhaustive"],
         ),
         Target(
